@@ -100,6 +100,16 @@ fn campaign(cx: &Cx, target: &str, acc: &mut Acc) -> Value {
     if std::path::Path::new(&dict).exists() {
         cmd.arg(format!("-dict={dict}"));
     }
+    {
+        // the campaign ends with this process
+        use std::os::unix::process::CommandExt;
+        unsafe {
+            cmd.pre_exec(|| {
+                libc::prctl(libc::PR_SET_PDEATHSIG, libc::SIGKILL);
+                Ok(())
+            });
+        }
+    }
     // Run the campaign while keeping the watchdog's progress counter moving.
     let log_path = format!("{artifacts}campaign.log");
     let out = (|| -> std::io::Result<std::process::Output> {
